@@ -86,6 +86,7 @@ type FuncVC struct {
 	sideStack       [][]string
 	forallStack     []bool
 	closureDone     map[string]bool
+	loopRemap       map[int]int // code loop ordinal -> contract loop ordinal (retry after a shift)
 	nRetCover       int
 	pureEnsDepth    int
 	binderDepth     int // >0 while evaluating under a quantifier: no facts may be emitted (they would mention bound variables)
@@ -677,14 +678,28 @@ func (fv *FuncVC) run(fr *Frame, args []Val, freeVars []Val, st *State, guard st
 	}
 }
 
+// specOrdinal: the `loop n` block of the contract that belongs to this loop of the code. Loops are numbered in source
+// order; when the function under verification gained or lost an un-annotated loop the numbers shift, and
+// verifyWithAliases retries with the order-preserving assignments of contract loops to code loops (loopRemap).
+func (fv *FuncVC) specOrdinal(fr *Frame, li *loopInfo) int {
+	if fv.loopRemap != nil && fr.fn == fv.fn {
+		if n, ok := fv.loopRemap[li.ordinal]; ok {
+			return n
+		}
+		return -1
+	}
+	return li.ordinal
+}
+
 func (fv *FuncVC) loopSpec(fr *Frame, li *loopInfo) *LoopSpec {
+	ord := fv.specOrdinal(fr, li)
 	if fr.con != nil {
-		if ls, ok := fr.con.Loops[li.ordinal]; ok {
+		if ls, ok := fr.con.Loops[ord]; ok {
 			return ls
 		}
 	}
 	if c, ok := fv.v.contracts[fr.fn]; ok {
-		if ls, ok := c.Loops[li.ordinal]; ok {
+		if ls, ok := c.Loops[ord]; ok {
 			return ls
 		}
 	}
